@@ -213,9 +213,17 @@ impl<'a> Planner<'a> {
             let all_inputs: SmallVec<[NodeId; 4]> =
                 self.graph.operator_dependencies(op_node).collect();
 
-            let all_inputs_available = all_inputs
-                .iter()
-                .all(|input_id| resolved_values.contains(*input_id));
+            // Values captured by nested subgraphs which are not nodes of this
+            // graph come from an enclosing scope, which is not available
+            // during partial evaluation.
+            let captures_in_scope = op_node
+                .capture_names()
+                .all(|name| self.graph.get_node_id(name).is_some());
+
+            let all_inputs_available = captures_in_scope
+                && all_inputs
+                    .iter()
+                    .all(|input_id| resolved_values.contains(*input_id));
 
             // Prune op if:
             //
